@@ -18,6 +18,7 @@ func families(thorough bool) []*family {
 	} else {
 		fs = append(fs, famSlice(3), famMaps(3), famCF(1), famCF(2))
 	}
+	fs = append(fs, famFT())
 	for _, t := range numTypes() {
 		fs = append(fs, famConst(t))
 	}
